@@ -156,12 +156,16 @@ def generate_info_cases(drv, res, rng, tier):
             key_id = rng.choice(KEY_IDS)
             kw = rng.choice(["direct", "aes-kw-256"])
             bf, kf = os.path.join(d, "blob.bin"), os.path.join(d, "cek.bin")
-            open(bf, "wb").write(blob)
-            open(kf, "wb").write(cek)
             for f in os.listdir(outd):
                 os.unlink(os.path.join(outd, f))
             for f in ("encrypted_content.bin", "suit_encryption_info.bin"):
                 common.make_stale(os.path.join(outd, f))
+            if i % 5 == 3:
+                # conversion in place: the blob handed out by the KMS already lies in the output directory under the artifact's name
+                bf = os.path.join(outd, "encrypted_content.bin")
+                res.count("generate-info:in-place")
+            open(bf, "wb").write(blob)
+            open(kf, "wb").write(cek)
             try:
                 cmd_encrypt.main(encrypt_subcommand="generate-info", encrypted_firmware=bf, encrypted_key=kf, key_id=key_id, kw_alg=kw,
                                  encrypt_script=str(common.REPO / "ncs" / "encrypt_script.py"), output_dir=outd)
@@ -186,6 +190,47 @@ def generate_info_cases(drv, res, rng, tier):
                     res.spec_failures.append({"case": [blob.hex(), key_id], "what": "generate-info: iv || tag || ciphertext of the outputs is not the supplied blob"})
                 if v["key_id"] != key_id or v["kw"] != (-6 if kw == "direct" else -5) or v["cek"] != cek.hex():
                     res.spec_failures.append({"case": [blob.hex(), key_id], "what": "generate-info: key id / key-wrap algorithm / CEK differ"})
+
+
+def failed_run_cases(drv, res, rng, tier):
+    """a run that fails (key unknown to the KMS, unreadable firmware) after a good run into the same output directory: what lies in the directory
+    afterwards is still a consistent set of artifacts (the untouched earlier one), or nothing"""
+    from suit_generator import cmd_encrypt
+    names = ("encrypted_content.bin", "suit_encryption_info.bin", "plain_text_digest.bin", "plain_text_size.txt")
+    for i in range(4 if tier == "quick" else 40):
+        with tempfile.TemporaryDirectory(prefix="verif_c06f_") as d:
+            outd = os.path.join(d, "out")
+            os.makedirs(outd)
+            fw = os.path.join(d, "fw.bin")
+            firmware = bytes(rng.randrange(256) for _ in range(rng.choice([1, 16, 300, 5000])))
+            open(fw, "wb").write(firmware)
+            key_id = rng.choice(KEY_IDS)
+            kwargs = dict(encrypt_subcommand="encrypt-and-generate", firmware=fw, key_name="aes_key", key_id=key_id, context=aes_keys_dir(), hash_alg="sha-256",
+                          kw_alg="direct", kms_script=str(common.REPO / "ncs" / "basic_kms.py"), encrypt_script=str(common.REPO / "ncs" / "encrypt_script.py"), output_dir=outd)
+            res.case(["failed-run", i, key_id], nontrivial=True)
+            res.count("failed-run")
+            try:
+                cmd_encrypt.main(**kwargs)
+            except BaseException as e:  # noqa
+                res.spec_failures.append({"case": ["failed-run", i], "what": "a plain encrypt-and-generate run failed: " + type(e).__name__})
+                continue
+            before = {f: open(os.path.join(outd, f), "rb").read() for f in os.listdir(outd)}
+            how = ["unknown key name", "firmware file missing"][i % 2]
+            bad = dict(kwargs, key_name="no_such_key") if i % 2 == 0 else dict(kwargs, firmware=os.path.join(d, "absent.bin"))
+            try:
+                cmd_encrypt.main(**bad)
+                res.spec_failures.append({"case": ["failed-run", i, how], "what": "a run that cannot succeed reported success"})
+                continue
+            except BaseException:  # noqa
+                pass
+            after = {f: open(os.path.join(outd, f), "rb").read() for f in os.listdir(outd)}
+            if after == before or not any(f in after for f in names):
+                continue
+            problems = []
+            check_artifacts(drv, after, firmware, key_id, "sha-256", problems)
+            if problems:
+                res.spec_failures.append({"case": ["failed-run", i, how], "sizes_before": {f: len(b) for f, b in before.items()}, "sizes_after": {f: len(b) for f, b in after.items()},
+                                          "what": f"after a run that failed ({how}) the output directory holds artifacts that are not consistent: " + problems[0]})
 
 
 def cli_cases(res, drv, tier):
@@ -268,6 +313,7 @@ def run(tier: str, seed: int, prop=PROP) -> int:
             res.sample({"job": list(job), "published_iv": o["iv"]})
     drv = Driver()
     generate_info_cases(drv, res, rng, tier)
+    failed_run_cases(drv, res, rng, tier)
     from .. import reuse
     reuse.encryptor_reuse(res, PROP)
     cli_cases(res, drv, tier)
